@@ -1017,6 +1017,44 @@ pub fn gen(seed: u64, thorough: bool) -> Vec<String> {
         }
     }
 
+    // (c2) tall surfaces: rect heights crossing 256 and 65536 rows (u8 / u16 row counters inside a block line)
+    let tall: &[(&str, &[usize])] = &[
+        ("BC1_UNORM", &[257, 300, 515, 65541]),
+        ("BC4_UNORM", &[259, 300, 70003]),
+        ("ASTC_6X5_UNORM", &[261, 300]),
+        ("ASTC_12X12_UNORM", &[267, 301]),
+        ("YUY2", &[257, 300, 65537]),
+        ("R1_UNORM", &[258, 300]),
+        ("NV12", &[258, 301, 65538]),
+        ("R8G8B8A8_UNORM", &[257, 300, 65537]),
+        ("R8_UNORM", &[300]),
+    ];
+    for (name, heights) in tall {
+        let f = format_of(name).unwrap();
+        let (_bw, bh) = unit_size(f);
+        for &sh in heights.iter() {
+            if sh > 60000 && !thorough && *name != "BC1_UNORM" && *name != "NV12" {
+                continue;
+            }
+            let reps = if thorough { 10 } else { 4 };
+            for rep in 0..reps {
+                let sw = 1 + g.rng.below(9) as usize;
+                let ci = if rep < 2 { [3usize, 8][rep] } else { g.rng.below(12) as usize };
+                let s = g.rng.below(1 << 20);
+                // rect heights around the wrap points, at every in-block row offset
+                let oy = g.rng.below(bh.max(1) as u64 + 2) as usize;
+                let base = if sh > 60000 && rep % 2 == 0 { 65536 } else { 256 };
+                let h = (base + rep).saturating_sub(oy % bh.max(1)).min(sh - oy).max(1);
+                let ox = g.rng.below(sw as u64) as usize;
+                let w = 1 + g.rng.below((sw - ox) as u64) as usize;
+                g.rect(name, sw, sh, ox, oy, w, h, ci, s);
+                if rep == 0 {
+                    g.full(name, sw, sh, ci, s);
+                }
+            }
+        }
+    }
+
     // (d) full decodes into pitched views: every format x 12 colours (COPY fast paths included)
     for (name, _) in FORMATS.iter() {
         for ci in 0..12usize {
